@@ -403,34 +403,106 @@ Proof. intros H. unfold lines. now rewrite lines_go_no_nl. Qed.
 Lemma has_prefix_app p s : has_prefix (p ++ s) p = true.
 Proof. induction p as [|x p IH]; simpl; [reflexivity|]. now rewrite N.eqb_refl. Qed.
 
-Lemma trim_semi_snoc s : trim_semi (s ++ [59%N]) = s.
-Proof. unfold trim_semi. rewrite rev_app_distr. simpl. now rewrite rev_involutive. Qed.
-
 Lemma skipn_length_app {B} (a b : list B) : skipn (length a) (a ++ b) = b.
 Proof. induction a; simpl; auto. Qed.
 
-Lemma lq_rollback_line_read s :
-  no_nl s = true ->
-  flat_map lq_rollback_of_line (lines (s_lq_rollback ++ s ++ [59%N])) = [s].
+(** [lines] by recursion on the text *)
+Lemma lines_go_acc x : forall acc,
+  lines_go acc x = match lines_go [] x with h :: t => (List.rev acc ++ h) :: t | [] => [] end.
 Proof.
-  intros H. rewrite lines_no_nl.
-  - cbn [flat_map]. rewrite app_nil_r. unfold lq_rollback_of_line. rewrite has_prefix_app.
-    rewrite skipn_length_app, trim_semi_snoc. reflexivity.
-  - rewrite !no_nl_app, H. reflexivity.
+  induction x as [|c x IH]; intros acc; cbn [lines_go].
+  - cbn [List.rev app]. now rewrite app_nil_r.
+  - destruct (N.eqb c 10).
+    + cbn [List.rev app]. now rewrite app_nil_r.
+    + rewrite (IH (c :: acc)), (IH [c]). destruct (lines_go [] x) as [|h t]; [reflexivity|].
+      cbn [List.rev app]. now rewrite <- app_assoc.
 Qed.
 
-Lemma lq_rollback_line_split s rest :
-  lq_rollback_line s ++ rest = (s_lq_rollback ++ s ++ [59%N]) ++ 10%N :: rest.
-Proof. unfold lq_rollback_line, s_semi_nl. rewrite <- !app_assoc. reflexivity. Qed.
+Lemma lines_nil : lines [] = [[]].
+Proof. reflexivity. Qed.
 
-Lemma lq_rollback_lines_read stmts :
-  (forall s, In s stmts -> no_nl s = true) ->
-  flat_map lq_rollback_of_line (lines (concat (map lq_rollback_line stmts))) = stmts.
+Lemma lines_cons c x :
+  lines (c :: x) =
+  if N.eqb c 10 then [] :: lines x
+  else match lines x with h :: t => (c :: h) :: t | [] => [] end.
 Proof.
-  induction stmts as [|s stmts IH]; intros H; [reflexivity|].
-  cbn [map concat]. rewrite lq_rollback_line_split.
-  rewrite lines_app, flat_map_app, lq_rollback_line_read by (apply H; now left).
-  cbn [app]. f_equal. apply IH. intros s' Hs'. apply H. now right.
+  unfold lines. cbn [lines_go]. destruct (N.eqb c 10); [reflexivity|].
+  rewrite (lines_go_acc x [c]). destruct (lines_go [] x); reflexivity.
+Qed.
+
+Lemma lines_not_nil x : lines x <> [].
+Proof.
+  induction x as [|c x IH]; [discriminate|]. rewrite lines_cons.
+  destruct (N.eqb c 10); [discriminate|]. destruct (lines x); [contradiction|discriminate].
+Qed.
+
+Lemma unlines_lines x : concat (map (fun l => l ++ s_nl) (lines x)) = x ++ s_nl.
+Proof.
+  induction x as [|c x IH]; [reflexivity|]. rewrite lines_cons.
+  destruct (N.eqb c 10) eqn:E.
+  - apply N.eqb_eq in E. subst c. cbn [map concat app]. now rewrite IH.
+  - destruct (lines x) as [|h t] eqn:El; [now destruct (lines_not_nil x)|].
+    cbn [map concat app] in *. now rewrite IH.
+Qed.
+
+(** every line of "--rollback: " ++ (the statement, its newlines prefixed) carries the prefix *)
+Lemma lines_prefixed x : forall p,
+  no_nl p = true ->
+  lines (p ++ lq_prefix_lines x) =
+  match lines x with h :: t => (p ++ h) :: map (app s_lq_rollback) t | [] => [] end.
+Proof.
+  induction x as [|c x IH]; intros p Hp.
+  - cbn [lq_prefix_lines flat_map]. rewrite app_nil_r, lines_nil, (lines_no_nl p Hp). now rewrite app_nil_r.
+  - cbn [lq_prefix_lines flat_map]. rewrite lines_cons.
+    change (flat_map (fun c0 : N => if N.eqb c0 10 then 10%N :: s_lq_rollback else [c0]) x) with (lq_prefix_lines x).
+    destruct (N.eqb c 10) eqn:E.
+    + cbn [app]. rewrite lines_app, (lines_no_nl p Hp), (IH s_lq_rollback eq_refl).
+      rewrite app_nil_r. destruct (lines x); reflexivity.
+    + cbn [app]. replace (p ++ c :: lq_prefix_lines x) with ((p ++ [c]) ++ lq_prefix_lines x)
+        by (rewrite <- app_assoc; reflexivity).
+      rewrite IH by (rewrite no_nl_app, Hp; simpl; now rewrite E).
+      destruct (lines x); [reflexivity|]. now rewrite <- app_assoc.
+Qed.
+
+Lemma lq_prefix_lines_app a b : lq_prefix_lines (a ++ b) = lq_prefix_lines a ++ lq_prefix_lines b.
+Proof. unfold lq_prefix_lines. apply flat_map_app. Qed.
+
+Lemma lq_rollback_line_split s rest :
+  lq_rollback_line s ++ rest = (s_lq_rollback ++ lq_prefix_lines (s ++ [59%N])) ++ 10%N :: rest.
+Proof.
+  unfold lq_rollback_line, s_semi_nl. rewrite lq_prefix_lines_app. cbn [lq_prefix_lines flat_map N.eqb Pos.eqb app].
+  rewrite <- !app_assoc. reflexivity.
+Qed.
+
+Lemma lq_content_prefixed l : flat_map lq_rollback_content (map (app s_lq_rollback) l) = l.
+Proof.
+  induction l as [|x l IH]; [reflexivity|]. cbn [map flat_map]. unfold lq_rollback_content at 1.
+  rewrite has_prefix_app, skipn_length_app, IH. reflexivity.
+Qed.
+
+Lemma lq_rollback_line_content s :
+  flat_map lq_rollback_content (lines (s_lq_rollback ++ lq_prefix_lines (s ++ [59%N]))) = lines (s ++ [59%N]).
+Proof.
+  rewrite (lines_prefixed (s ++ [59%N]) s_lq_rollback eq_refl).
+  destruct (lines (s ++ [59%N])) as [|h t] eqn:E; [now destruct (lines_not_nil (s ++ [59%N]))|].
+  change ((s_lq_rollback ++ h) :: map (app s_lq_rollback) t) with (map (app s_lq_rollback) (h :: t)).
+  apply lq_content_prefixed.
+Qed.
+
+(** the contents of the rollback comments of a changeset's tail, joined line by line, are the
+    statements each followed by ";\n" *)
+Lemma lq_rollback_lines_content stmts :
+  concat (map (fun l => l ++ s_nl)
+            (flat_map lq_rollback_content (lines (concat (map lq_rollback_line stmts))))) =
+  concat (map (fun s => s ++ s_semi_nl) stmts).
+Proof.
+  induction stmts as [|s stmts IH]; [reflexivity|].
+  change (concat (map lq_rollback_line (s :: stmts))) with (lq_rollback_line s ++ concat (map lq_rollback_line stmts)).
+  change (concat (map (fun s0 => s0 ++ s_semi_nl) (s :: stmts)))
+    with ((s ++ s_semi_nl) ++ concat (map (fun s0 => s0 ++ s_semi_nl) stmts)).
+  rewrite lq_rollback_line_split, lines_app, flat_map_app, lq_rollback_line_content.
+  rewrite map_app, concat_app, unlines_lines. f_equal; [|exact IH].
+  unfold s_semi_nl, s_nl. now rewrite <- !app_assoc.
 Qed.
 
 Lemma dec_loop_no_nl fuel : forall n acc, no_nl acc = true -> no_nl (dec_loop fuel n acc) = true.
@@ -452,10 +524,10 @@ Proof. reflexivity. Qed.
 
 Lemma lq_changeset_read now index c :
   no_nl now = true -> no_nl (c_comment c) = true -> lq_cmd_ok (c_cmd c) = true ->
-  (forall s, In s (ReverseStmts c) -> no_nl s = true) ->
+  (forall s, In s (ReverseStmts c) -> line_closed s = true) ->
   lq_rollbacks (lq_changeset now index c) = ReverseStmts c.
 Proof.
-  intros Hn Hc Hcmd Hs. unfold lq_rollbacks, lq_changeset, s_lq_changeset, s_nl, s_semi_nl.
+  intros Hn Hc Hcmd Hs. unfold lq_changeset, s_lq_changeset, s_nl, s_semi_nl.
   set (A := [45;45;99;104;97;110;103;101;115;101;116;32;97;116;108;97;115;58]%N ++ now ++ s_dash ++ dec (S index)).
   set (B := if nonempty (c_comment c) then s_lq_comment ++ c_comment c else []).
   replace (([10;45;45;99;104;97;110;103;101;115;101;116;32;97;116;108;97;115;58]%N ++
@@ -464,6 +536,7 @@ Proof.
     with ([] ++ 10%N :: A ++ 10%N :: B ++ 10%N :: (c_cmd c ++ [59%N]) ++ 10%N ::
           concat (map lq_rollback_line (ReverseStmts c))).
   2:{ unfold A. simpl. rewrite <- !app_assoc. simpl. reflexivity. }
+  unfold lq_rollbacks.
   rewrite lines_app.
   replace (A ++ 10%N :: B ++ 10%N :: (c_cmd c ++ [59%N]) ++ 10%N :: concat (map lq_rollback_line (ReverseStmts c)))
     with (A ++ 10%N :: (B ++ 10%N :: (c_cmd c ++ [59%N]) ++ 10%N :: concat (map lq_rollback_line (ReverseStmts c))))
@@ -472,32 +545,35 @@ Proof.
   rewrite lines_app.
   rewrite lines_app.
   rewrite !flat_map_app.
-  rewrite lq_rollback_lines_read by exact Hs.
   assert (HA : no_nl A = true).
   { unfold A. rewrite !no_nl_app, Hn, dec_no_nl. reflexivity. }
   assert (HB : no_nl B = true).
   { unfold B. destruct (nonempty (c_comment c)); [|reflexivity]. rewrite no_nl_app, Hc. reflexivity. }
   rewrite (lines_no_nl A HA), (lines_no_nl B HB).
-  assert (E1 : flat_map lq_rollback_of_line (lines []) = []) by reflexivity.
-  assert (E2 : flat_map lq_rollback_of_line [A] = []).
-  { cbn [flat_map]. rewrite app_nil_r. unfold lq_rollback_of_line. unfold A.
+  assert (E1 : flat_map lq_rollback_content (lines []) = []) by reflexivity.
+  assert (E2 : flat_map lq_rollback_content [A] = []).
+  { cbn [flat_map]. rewrite app_nil_r. unfold lq_rollback_content. unfold A.
     now rewrite has_prefix_changeset. }
-  assert (E3 : flat_map lq_rollback_of_line [B] = []).
-  { cbn [flat_map]. rewrite app_nil_r. unfold lq_rollback_of_line, B.
+  assert (E3 : flat_map lq_rollback_content [B] = []).
+  { cbn [flat_map]. rewrite app_nil_r. unfold lq_rollback_content, B.
     destruct (nonempty (c_comment c)); reflexivity. }
-  assert (E4 : flat_map lq_rollback_of_line (lines (c_cmd c ++ [59%N])) = []).
+  assert (E4 : flat_map lq_rollback_content (lines (c_cmd c ++ [59%N])) = []).
   { unfold lq_cmd_ok in Hcmd. induction (lines (c_cmd c ++ [59%N])) as [|l ls IH]; [reflexivity|].
     cbn [forallb] in Hcmd. apply andb_true_iff in Hcmd as [H1 H2]. apply negb_true_iff in H1.
-    cbn [flat_map]. unfold lq_rollback_of_line at 1. rewrite H1. cbn [app]. now apply IH. }
+    cbn [flat_map]. unfold lq_rollback_content at 1. rewrite H1. cbn [app]. now apply IH. }
   rewrite E1.
   assert (G : forall (x1 x2 x3 r : list bytes), x1 = [] -> x2 = [] -> x3 = [] ->
               [] ++ x1 ++ x2 ++ x3 ++ r = r) by (intros; subst; reflexivity).
-  apply G; [exact E2|exact E3|exact E4].
+  rewrite (G _ _ _ _ E2 E3 E4).
+  rewrite lq_rollback_lines_content.
+  rewrite <- (app_nil_r (concat _)).
+  rewrite (scan_stmts line_scan line_closed line_scan_stmt (ReverseStmts c) [] Hs).
+  now rewrite line_scan_nil, app_nil_r.
 Qed.
 
 Definition lq_change_ok (c : mchange) : Prop :=
   no_nl (c_comment c) = true /\ lq_cmd_ok (c_cmd c) = true /\
-  forall s, In s (ReverseStmts c) -> no_nl s = true.
+  forall s, In s (ReverseStmts c) -> line_closed s = true.
 
 Lemma lq_texts_read now : forall changes index,
   no_nl now = true -> (forall c, In c changes -> lq_change_ok c) ->
